@@ -368,13 +368,13 @@ func (p *Parser) ShortExp(t *token.Token) (ast.ExpNode, *token.Token) {
 	case token.NUMDEC, token.NUMHEX:
 		n, err := ast.NewNumber(t)
 		if err != nil {
-			panic(err)
+			panic(literalError(t, err))
 		}
 		exp, t = n, p.Scan()
 	case token.STRING:
 		s, err := ast.NewString(t)
 		if err != nil {
-			panic(err)
+			panic(literalError(t, err))
 		}
 		exp, t = s, p.Scan()
 	case token.LONGSTRING:
@@ -542,7 +542,7 @@ func (p *Parser) Args(t *token.Token) ([]ast.ExpNode, *token.Token) {
 	case token.STRING:
 		arg, err := ast.NewString(t)
 		if err != nil {
-			panic(err)
+			panic(literalError(t, err))
 		}
 		return []ast.ExpNode{arg}, p.Scan()
 	case token.LONGSTRING:
@@ -633,6 +633,15 @@ func (p *Parser) NameAttrib(t *token.Token) (ast.NameAttrib, *token.Token) {
 		t = p.Scan()
 	}
 	return ast.NewNameAttrib(name, attribName, attrib), t
+}
+
+// literalError turns an error found while decoding the literal in t (e.g. an
+// escape sequence out of range) into a syntax error located at t.
+func literalError(t *token.Token, err error) Error {
+	return Error{
+		Got:      &token.Token{Type: token.INVALID, Lit: t.Lit, Pos: t.Pos},
+		Expected: err.Error(),
+	}
 }
 
 func expectIdent(t *token.Token) {
